@@ -27,6 +27,7 @@ func init() {
 			{"C12.R7", "q", "owned units in request-keyed maps", c12r7},
 			{"C12.R8", "q", "release keyed on the version sign: rejected revisions stay non-negative", c12r8},
 			{"C12.R9", "q", "size correction taken while the record is still compressed", c12r9},
+			{"C12.R10", "q", "counter and allocation primitives are symmetric", c12r10},
 			{"C12.R6", "q", "event discovery: every event inside a contracted function", c12r6},
 		},
 	})
@@ -1154,5 +1155,90 @@ func c12r9(c *Ctx) {
 		c.Paths++
 		c.check(f.CFG().Dominates(d.Expr, dec.Expr) && !f.CFG().ReachesWithout(dec.Expr, d.Expr, nil), R, key, d.Pos(), "DiffSizeAfterDecompressed ≺ Decompress",
 			"the GetData size correction is computed after Decompress() cleared the compress flag, so it is always 0: the record is accounted at its compressed capacity and released at its decompressed capacity, GetData.Size drifts negative for good")
+	}
+}
+
+// c12r10: the primitives E4 treats as ±1 events really are symmetric.
+func c12r10(c *Ctx) {
+	const R = "C12.R10"
+	pair := func(comb, a, b string, cnt int64) {
+		f := c.fn(R, "cmem.ResourceLimiter."+comb)
+		if f == nil {
+			return
+		}
+		info := f.Info()
+		ca, cb := f.CallsTo("cmem.ResourceLimiter."+a), f.CallsTo("cmem.ResourceLimiter."+b)
+		ok := len(ca) == 1 && len(cb) == 1 && len(f.Calls()) == 2
+		if ok {
+			ok = prog.ObjOf(info, ca[0].Expr.Args[0]) == f.Param(0)
+			v, isC := prog.ConstInt(info, cb[0].Expr.Args[0])
+			ok = ok && isC && v == cnt && len(f.GuardsAt(ca[0].Expr)) == 0 && len(f.GuardsAt(cb[0].Expr)) == 0
+		}
+		c.check(ok, R, f.Key+" = "+a+"(size) + "+b+"(1)", f.Pos(), "both, unconditionally", f.Key+" no longer moves the size by its argument and the count by exactly one: every balance the path engine proves is about a different counter than the one published")
+	}
+	pair("AddSizeAndCount", "AddSize", "AddCount", 1)
+	pair("SubSizeAndCount", "SubSize", "SubCount", 1)
+	sign := func(name, field string, neg bool) {
+		f := c.fn(R, "cmem.ResourceLimiter."+name)
+		if f == nil {
+			return
+		}
+		info := f.Info()
+		ok := false
+		for _, call := range f.CallsTo("sync/atomic.AddInt64", "atomic.AddInt64") {
+			if len(call.Expr.Args) == 2 && prog.MentionsField(info, call.Expr.Args[0], "cmem.ResourceLimiter."+field) {
+				d := prog.Unparen(call.Expr.Args[1])
+				isNeg := false
+				if u, isU := d.(*ast.UnaryExpr); isU && u.Op == token.SUB {
+					isNeg, d = true, u.X
+				}
+				if isNeg == neg && prog.Mentions(info, d, f.Param(0)) && len(f.GuardsAt(call.Expr)) == 0 {
+					ok = true
+				}
+			}
+		}
+		c.check(ok, R, f.Key+": "+map[bool]string{false: "+", true: "−"}[neg]+"argument on "+field, f.Pos(), "atomic add of ±arg", f.Key+" does not atomically add "+map[bool]string{false: "+", true: "−"}[neg]+"its argument to "+field)
+	}
+	sign("AddSize", "Size", false)
+	sign("SubSize", "Size", true)
+	sign("AddCount", "Count", false)
+	sign("SubCount", "Count", true)
+	if f := c.fn(R, "cmem.CArray.Alloc"); f != nil {
+		info := f.Info()
+		add := f.CallsTo("cmem.ResourceLimiter.AddSizeAndCount")
+		ok := len(add) == 1 && prog.ObjOf(info, add[0].Expr.Args[0]) == f.Param(0)
+		// cap recorded = size
+		capOK := true
+		ast.Inspect(f.Decl.Body, func(x ast.Node) bool {
+			if as, isA := x.(*ast.AssignStmt); isA && len(as.Lhs) == 1 && prog.IsField(info, "cmem.CArray.Cap")(as.Lhs[0]) && prog.ObjOf(info, as.Rhs[0]) != f.Param(0) {
+				capOK = false
+			}
+			return true
+		})
+		c.check(ok && capOK, R, f.Key+": C allocation accounted with its size, Cap = size", f.Pos(), "AllocRL +size, Cap = size", "CArray.Alloc does not account the allocation with the size it records in Cap: Free (which releases Cap) cannot balance it")
+	}
+	if f := c.fn(R, "cmem.CArray.Free"); f != nil {
+		info := f.Info()
+		sub := f.CallsTo("cmem.ResourceLimiter.SubSizeAndCount")
+		ok := len(sub) == 1 && prog.IsField(info, "cmem.CArray.Cap")(prog.Unparen(sub[0].Expr.Args[0]))
+		// guarded by Addr != 0 and Addr reset afterwards (idempotent)
+		g := false
+		if len(sub) == 1 {
+			for _, a := range f.GuardsAt(sub[0].Expr) {
+				if prog.AtomCmp(a, token.NEQ, prog.IsField(info, "cmem.CArray.Addr"), prog.IsIntConst(info, 0)) {
+					g = true
+				}
+			}
+		}
+		reset := false
+		ast.Inspect(f.Decl.Body, func(x ast.Node) bool {
+			if as, isA := x.(*ast.AssignStmt); isA && len(as.Lhs) == 1 && prog.IsField(info, "cmem.CArray.Addr")(as.Lhs[0]) {
+				if v, isC := prog.ConstInt(info, as.Rhs[0]); isC && v == 0 {
+					reset = true
+				}
+			}
+			return true
+		})
+		c.check(ok && g && reset, R, f.Key+": releases Cap once (Addr != 0 ⇒ −Cap, Addr = 0)", f.Pos(), "idempotent", "CArray.Free no longer releases exactly the recorded capacity exactly once (guard on Addr / reset of Addr missing): double Free double-counts, or the allocation counter never returns to zero")
 	}
 }
